@@ -1,6 +1,6 @@
 """gloo_run — run jobs on a REAL gloo process group (spawned processes, file:// rendezvous).
 
-Used only in the thorough tier, on a stratified sample, to validate `fakedist`:
+Used only in the thorough tier, on a stratified sample (sub-groups and named destinations included), to validate `fakedist`:
 whatever the fake transport says about a case (values per rank / mismatch) is
 compared with what real processes on real gloo do (values per rank / a rank raises,
 aborts with SIGABRT, or hangs until the timeout).
@@ -139,6 +139,32 @@ def run_jobs(world_size: int, jobs: list[dict], timeout_s: float = 15.0, join_s:
     return {"exit": [p.exitcode for p in procs], "results": results, "timed_out": timed_out}
 
 
+def run_launches(launches, members_of, timeout_s: float = 15.0, max_workers: int = 4):
+    """launches: [(world_size, [job, …])].  Returns, per launch, per job, the pair `(res, j)` to be read with
+    `job_status(res, j, members)` / `res["results"][rank][j]`.  A child stops at its first failing job (the process
+    group is unusable afterwards), so the jobs that FOLLOW the first failing job of a launch are run again, each alone."""
+    from concurrent.futures import ThreadPoolExecutor
+    with ThreadPoolExecutor(max_workers=max_workers) as ex:
+        first = list(ex.map(lambda wb: run_jobs(wb[0], wb[1], timeout_s=timeout_s), launches))
+        out, again = [], []
+        for li, ((world, jobs), res) in enumerate(zip(launches, first)):
+            row = []
+            failed_at = None
+            for j, job in enumerate(jobs):
+                if failed_at is None:
+                    row.append((res, j))
+                    if job_status(res, j, members_of(job, world)) != "ok":
+                        failed_at = j
+                else:
+                    row.append(None)
+                    again.append((li, j, world, job))
+            out.append(row)
+        redo = list(ex.map(lambda x: run_jobs(x[2], [x[3]], timeout_s=timeout_s), again))
+    for (li, j, _w, _job), res in zip(again, redo):
+        out[li][j] = (res, 0)
+    return out
+
+
 def job_status(res: dict, j: int, members) -> str:
     """'ok' when every member finished job j; 'failed' when any member raised / aborted / hung."""
     for r in members:
@@ -151,6 +177,15 @@ def job_status(res: dict, j: int, members) -> str:
 if __name__ == "__main__":   # smoke test: python -m harness.gloo_run
     import torch
     jobs = [{"kind": "send_tensors", "tensors": [torch.ones(1, 2), torch.zeros(2, 3), torch.zeros(0, 1)], "group": None, "dst": None},
+            # sub-group [1, 2] of a world of 3: destination named by its GROUP rank (1 = global rank 2)
+            {"kind": "send_tensors", "tensors": [None, torch.ones(1), torch.full((2,), 2.0)], "group": [1, 2], "dst": 1},
+            # sub-group with one empty list: dtype/shape broadcast from group rank 1 (global 2); then all-empty; then sized by the group
+            {"kind": "sync_states", "states": [None, {"m": {"l": []}}, {"m": {"l": [torch.ones(2)]}}], "group": [1, 2], "dst": None},
+            {"kind": "sync_states", "states": [None, {"m": {"l": [], "n": 4}}, {"m": {"l": [], "n": 5}}], "group": [1, 2], "dst": 0},
+            # still a genuine finding: 0-dim on one rank, 1-dim on the others (the last job: it kills the process group)
             {"kind": "send_tensors", "tensors": [torch.tensor(0.), torch.zeros(2), torch.zeros(2)], "group": None, "dst": None}]
     t0 = time.time()
-    print(run_jobs(3, jobs), round(time.time() - t0, 1), "s")
+    res = run_jobs(3, jobs)
+    for r, rr in enumerate(res["results"]):
+        print("rank", r, "exit", res["exit"][r], rr)
+    print("timed_out", res["timed_out"], round(time.time() - t0, 1), "s")
